@@ -1,6 +1,7 @@
 package main
 
 import (
+	"os"
 	"fmt"
 	"go/ast"
 	"go/token"
@@ -607,6 +608,9 @@ func (vc *VC) execReturn(x *ast.ReturnStmt, st *State) {
 }
 
 func (vc *VC) finishReturn(st *State, n ast.Node) {
+	if os.Getenv("GOVC_DEBUG_DEFER") != "" {
+		fmt.Fprintf(os.Stderr, "finishReturn %s: %d deferred\n", vc.unit, len(vc.deferred))
+	}
 	// run deferred calls (LIFO)
 	for i := len(vc.deferred) - 1; i >= 0; i-- {
 		d := vc.deferred[i]
@@ -615,7 +619,13 @@ func (vc *VC) finishReturn(st *State, n ast.Node) {
 			vc.havocAll(st, "deferred closure")
 			continue
 		}
+		if os.Getenv("GOVC_DEBUG_DEFER") != "" {
+			fmt.Fprintf(os.Stderr, "  before deferred call: tracelen=%s\n", clipS(vc.heap(st, "$TraceLen", SInt).String(), 100))
+		}
 		vc.evalCall(d.Call, st)
+		if os.Getenv("GOVC_DEBUG_DEFER") != "" {
+			fmt.Fprintf(os.Stderr, "  after deferred call: tracelen=%s\n", clipS(vc.heap(st, "$TraceLen", SInt).String(), 100))
+		}
 	}
 	vc.rets = append(vc.rets, st)
 	vc.checkPosts(st, n)
